@@ -330,6 +330,108 @@ pub fn run_batch(cases: &[C16Case], name: &str, slot: usize) -> Vec<Outcome> {
     out
 }
 
+/// Candidate simplifications of a failing case (one step each).
+fn shrink_candidates(c: &C16Case) -> Vec<C16Case> {
+    let mut out = vec![];
+    let b = &c.block;
+    // fewer operations
+    if c.ops.len() > 1 {
+        out.push(C16Case { block: b.clone(), ops: c.ops[..c.ops.len() / 2].to_vec() });
+        out.push(C16Case { block: b.clone(), ops: c.ops[c.ops.len() / 2..].to_vec() });
+        for i in 0..c.ops.len().min(12) {
+            let mut ops = c.ops.clone();
+            ops.remove(i);
+            out.push(C16Case { block: b.clone(), ops });
+        }
+    }
+    // fewer / simpler arms
+    for i in 0..b.arms.len() {
+        let mut nb = b.clone();
+        nb.arms.remove(i);
+        out.push(C16Case { block: nb, ops: c.ops.clone() });
+        if b.arms[i].states.len() > 1 {
+            let mut nb = b.clone();
+            nb.arms[i].states.truncate(1);
+            out.push(C16Case { block: nb, ops: c.ops.clone() });
+        }
+        if b.arms[i].behavior.len() > 1 {
+            for k in 0..b.arms[i].behavior.len() {
+                let mut nb = b.clone();
+                nb.arms[i].behavior.remove(k);
+                out.push(C16Case { block: nb, ops: c.ops.clone() });
+            }
+        }
+        for (si, s) in b.arms[i].behavior.iter().enumerate() {
+            for ai in 0..s.args.len() {
+                let mut nb = b.clone();
+                nb.arms[i].behavior[si].args.remove(ai);
+                out.push(C16Case { block: nb, ops: c.ops.clone() });
+            }
+        }
+    }
+    // simpler default clause
+    match &b.default {
+        Some((s, DefaultValues::Inline(f))) if !f.is_empty() => {
+            let mut nb = b.clone();
+            nb.default = Some((*s, DefaultValues::Inline(f[1..].to_vec())));
+            out.push(C16Case { block: nb, ops: c.ops.clone() });
+        }
+        Some((s, DefaultValues::Expr(_))) => {
+            let mut nb = b.clone();
+            nb.default = Some((*s, DefaultValues::None));
+            out.push(C16Case { block: nb, ops: c.ops.clone() });
+        }
+        _ => {}
+    }
+    out.truncate(120);
+    out
+}
+
+/// Batch shrinking: all one-step simplifications of the failing case are compiled together; the
+/// first one that still fails becomes the new case; repeat until none fails.
+fn shrink(case: C16Case, detail: String) -> (C16Case, String) {
+    let mut cur = case;
+    let mut cur_detail = detail;
+    for round in 0..25 {
+        let cands = shrink_candidates(&cur);
+        if cands.is_empty() {
+            break;
+        }
+        let fails = failing_indices(&cands, &format!("c16-shrink-{round}"));
+        match fails.first() {
+            Some((i, d)) => {
+                cur = cands[*i].clone();
+                cur_detail = d.clone();
+            }
+            None => break,
+        }
+    }
+    (cur, cur_detail)
+}
+
+/// Runs the cases as one generated program and returns (index, detail) of every failing case.
+fn failing_indices(cases: &[C16Case], name: &str) -> Vec<(usize, String)> {
+    let (src, _lines) = program(cases);
+    let Ok(cr) = make_crate(name, &[("anim", src)], true) else { return vec![] };
+    let ops: Vec<&Vec<AOp>> = cases.iter().map(|c| &c.ops).collect();
+    let ops_path = cr.dir.join("ops.json");
+    let _ = std::fs::write(&ops_path, serde_json::to_string(&ops).unwrap());
+    let (ok, _diags, _stderr) = build(&cr, "anim", 0);
+    let mut out = vec![];
+    if ok {
+        let (_code, stdout, _stderr) = run_bin(&cr, "anim", 0, &[ops_path.to_str().unwrap()]);
+        for l in stdout.lines() {
+            let Ok(v) = serde_json::from_str::<serde_json::Value>(l) else { continue };
+            if v["ok"] != true {
+                let i = v["case"].as_u64().unwrap_or(0) as usize;
+                out.push((i, format!("`{}` behaves differently from `{}`: {}", print_macro(&cases[i].block, i), print_builder(&cases[i].block), v["detail"].as_str().unwrap_or(""))));
+            }
+        }
+    }
+    let _ = std::fs::remove_dir_all(&cr.dir);
+    out
+}
+
 pub fn c16(run: &mut Run) {
     run.assume("documented reading of animator!: default(state, values) = initial state and values (inline fields on top of Default, expression as is, omitted = Default), `default` keyframe body = those initial values, A | B installs the same timeline for each state, bracketed list = merged timeline, unmentioned states have no timeline; durations/positions restricted to forms whose unit conversion is exact so that everything is compared bit for bit (unit conversion is C15's subject)");
     run.assume("the animated struct is defined in the generated program's own module: `default` keyframes rely on a private helper of the derive output");
@@ -387,7 +489,17 @@ pub fn c16(run: &mut Run) {
         for o in run_batch(&cases, &format!("c16-{b}"), 0) {
             match o {
                 Outcome::Ok => {}
-                Outcome::Violation { check_case, detail } => run.record_violation(Violation { check: "c16_compiled".into(), case: check_case, detail }),
+                Outcome::Violation { check_case, detail } => {
+                    // shrink run-time differences (a block that does not compile is reported as is)
+                    let (case, detail) = match serde_json::from_value::<C16Case>(check_case.clone()) {
+                        Ok(c) if detail.contains("behaves differently") => {
+                            let (c, d) = shrink(c, detail);
+                            (serde_json::to_value(&c).unwrap(), d)
+                        }
+                        _ => (check_case, detail),
+                    };
+                    run.record_violation(Violation { check: "c16_compiled".into(), case, detail })
+                }
                 Outcome::Infra(m) => run.health_fail(m),
             }
         }
